@@ -135,6 +135,8 @@ def merge_to_slot(t: T, extra_chars=(), origin=""):
                     chars |= s.chars
                 elif s.cls == "INT":
                     chars |= set("0123456789-")
+                elif s.cls == "ESC":
+                    return T([[slot("ESC", s.origin or origin, line=s.line)]])
                 else:
                     return T([[slot("RAW", s.origin or origin, line=s.line)]])
                 origin = origin or s.origin
@@ -189,6 +191,14 @@ class TaintInterp:
         if node.attr == "value" and isinstance(base, ast.Name) \
                 and isinstance(env.get(base.id), Obj) \
                 and env[base.id].what == "token":
+            shape = self.facts.get("shape_ok", {})
+            if kind in shape:
+                if shape[kind][0]:
+                    return T([[slot("ESC", f"{text} ({kind}; emitted code "
+                                    "shape verified independent of payload)",
+                                    line=node.lineno)]])
+                return T([[slot("RAW", f"{text} ({kind}; {shape[kind][1]})",
+                                line=node.lineno)]])
             if kind and kind in self.langs:
                 lang = self.langs[kind]
                 return T([[slot("LEX", f"{text} ({kind})", lang.chars,
@@ -398,6 +408,11 @@ class TaintInterp:
             ret = self.facts.get("uncompress_returns", {}).get(kind)
             if ret == "INT":
                 return I()
+            shape = self.facts.get("shape_ok", {})
+            if kind in shape and shape[kind][0]:
+                return T([[slot("ESC", f"uncompress(token) ({kind}; emitted "
+                                "code shape verified independent of payload)",
+                                line=line)]])
             return T([[slot("RAW", f"uncompress(token) ({kind})",
                             line=line)]])
         if short == "join" and isinstance(node.func, ast.Attribute) and args:
@@ -414,7 +429,14 @@ class TaintInterp:
                         if s.kind != "c":
                             return Unknown(ast.unparse(node), line)
                         sepchars |= set(s.text)
-                return merge_to_slot(it.elem, sepchars)
+                if all(s.kind == "c" for a in it.elem.alts for s in a):
+                    # pieces of constant text: each piece is one alternative
+                    return it.elem.union(sep)
+                if all(s.kind == "c" or s.cls in ("LEX", "IDENT", "HEX",
+                                                  "INT")
+                       for a in it.elem.alts for s in a):
+                    return merge_to_slot(it.elem, sepchars)
+                return it.elem.union(sep)
             return Unknown(ast.unparse(node), line)
         if short == "split" and isinstance(node.func, ast.Attribute):
             base = self.ev(node.func.value, env)
@@ -432,10 +454,15 @@ class TaintInterp:
                 if isinstance(dflt, tuple):
                     return Obj("tablevalue")
             return Unknown(ast.unparse(node), line)
-        if short in ("iter",) and args:
+        if short in ("iter", "list", "reversed", "tuple") and args:
             v = self.ev(args[0], env)
             return v
-        if short == "next":
+        if short == "next" and args:
+            v = self.ev(args[0], env)
+            if isinstance(v, T):
+                return merge_to_slot(v)
+            if isinstance(v, L):
+                return v.elem
             return T([[slot("RAW", "next(iterator) character", line=line)]])
         if short in ("isdecimal", "isnumeric", "isinstance", "startswith"):
             return Obj("bool")
@@ -581,6 +608,23 @@ class TaintInterp:
             return env
         if isinstance(st, ast.For):
             return self.for_loop(st, env, label)
+        if isinstance(st, ast.Expr) and isinstance(st.value, ast.Call) \
+                and isinstance(st.value.func, ast.Attribute) \
+                and isinstance(st.value.func.value, ast.Name) \
+                and st.value.func.attr in ("append", "extend", "insert") \
+                and st.value.args:
+            name = st.value.func.value.id
+            cur = env.get(name)
+            add = self.ev(st.value.args[-1], env)
+            if isinstance(add, L):
+                add = add.elem
+            addt = as_T(add, ast.unparse(st.value.args[-1]), st.lineno)
+            env = dict(env)
+            if isinstance(cur, L):
+                env[name] = L(cur.elem.union(addt))
+            else:
+                env[name] = L(addt)
+            return env
         if isinstance(st, (ast.Expr, ast.Pass)):
             return env
         if isinstance(st, ast.Assign):
@@ -591,9 +635,6 @@ class TaintInterp:
 
     def for_loop(self, st, env, label):
         # the verified character-escaping loop
-        esc = self.escape_loop(st, env)
-        if esc is not None:
-            return esc
         env = dict(env)
         it = self.ev(st.iter, env)
         if isinstance(st.target, ast.Name):
